@@ -12,8 +12,9 @@ Emit_DiskChopper.tla (spec -> code), Trace_DiskChopper.tla (code -> spec).
    direct query and for the expansion over pulses (= the disk rotating for np pulse periods); the
    sort-and-compare slit validation with wrap-around equals disjointness on the circle; in-phase.
    Thorough adds random walks (-simulate) on a 360-tick disk with up to 6 slits.
-   Five negative controls (no wrap-around, one offset per pulse, open/close swapped, phase sign,
-   a missing turn) must be rejected.
+   Eight negative controls (no wrap-around, wrap-around on the listed order, one offset per pulse, open/close
+   swapped, phase sign, a missing turn, one rotation too few, rotations remembered from the first question) must
+   be rejected.  In the quick model Expand(1) is left to the invariant ExpandOnePulse (= the direct answer).
 2. spec -> code (M1): TLC writes every Stride-th configuration of that model with the expected pairs,
    all slit sets with the declarative validity verdict and all ratios n/d (n, d <= 9) with the in-phase
    verdict.  Each is replayed into DiskChopper / time_offset_open / time_offset_close / open_duration /
@@ -21,6 +22,29 @@ Emit_DiskChopper.tla (spec -> code), Trace_DiskChopper.tla (code -> spec).
 3. code -> spec (M2): the same calls on seeded random configurations far beyond the exhaustive bounds
    (K up to 360, 1..6 slits, 1..4 pulses).  Every call of 2. and 3. becomes one NDJSON event in integer
    ticks and Trace_DiskChopper.tla judges it with the *simulated disk only*.
+
+Hardening round (HARDENING.md; what was added and why it cannot alarm on correct code):
+ * the same configuration is handed over in different spellings (choose_how / lib_chopper.make_disk): slit edges,
+   beam position, phase as int64 or float32 where that is exact (whole degrees / dyadic degrees), integer-typed
+   chopper and pulse frequency in one unit, beam position / phase in the other angle unit than the slits, slit
+   arrays as strided views of one interleaved array, construction through DiskChopper.from_nexus (slit_edges or
+   slit_begin/slit_end + slit_height + radius), beam positions before top-dead-centre and beyond one turn.  None
+   of this changes which disk is described, so the simulated disk judges the event unchanged.  A dtype error for
+   an integer / single-precision spelling counts as "unsupported" (counter `refused_for_dtype_only`), never a wrong
+   answer as accepted.
+ * second use: the same chopper object is asked again with another pulse frequency (its ratio changes), then again
+   with the first; chopper objects kept from the run are asked once more at the end in reverse order; every ninth
+   task of a worker process is replayed at its end in reverse order (keys get a suffix); the first call of a worker
+   process is never a judged one.  Model side: action AskAgain + invariant SecondAnswerIsFresh
+   (MC_DiskChopper_again.cfg), negative control "stalefactor".
+ * listing order of the slits in the model: Reject / Construct see the slits in every order (Orders / Listed),
+   invariant ValidationIgnoresListingOrder, negative control "wraplisted" (= the seeded change).
+ * the perturbed-frequency and mixed-unit variants now also go through Chopper.from_disk_chopper; in-phase probes at
+   a slow (0.5 Hz) and a fast (400 Hz) source as well.
+ * integer-typed pulse frequency in ANOTHER unit than the chopper frequency (INT_PULSE_PROBES): the code converted
+   it in integer arithmetic - a genuine defect, one key per call site (mutants/C10/PROPOSED_FIX_int_pulse_*.diff).
+ * results that are not finite times on the tick grid (wrong unit, NaN, absurdly large, open/close of different
+   length) become verdicts (`time_not_on_the_tick_grid`, `... differ in number`), not crashes.
 
 Numeric step outside TLC (stated once): a returned time t is mapped to ticks = t[s]*K*|f|[Hz] and must
 lie within 1e-9 rotation periods of an integer tick (lib_chopper.TICK_TOL); the integer goes into the
@@ -42,8 +66,8 @@ from fractions import Fraction
 import scipp as sc
 
 from ..core import MachineryError
-from ..lib_chopper import (ANGLE_UNITS, Background, Collector, chunked, merge_results, run_chunks, FREQ_UNITS, freq_value, make_disk, random_valid_slits,
-                           spans_tdc, to_ticks, touching_only)
+from ..lib_chopper import (ANGLE_UNITS, Background, Collector, chunked, exact_in, merge_results, run_chunks, FREQ_UNITS,
+                           freq_value, make_disk, random_valid_slits, spans_tdc, to_ticks, touching_only)
 from ..tlc import require_actions, require_ok, write_ndjson
 
 W = int(os.environ.get('VERIF_TLC_WORKERS', '16'))
@@ -56,6 +80,8 @@ RULE = ('configuration = slit set on a K-tick disk (begin on the first turn, beg
         'invalid only across top-dead-centre')
 
 PULSE_HZ = (Fraction(14), Fraction(10), Fraction(60), Fraction(25))
+# the in-phase test is relative: the same relative deviations at a slow and at a fast source (HARDENING 4)
+RATIO_PULSE_HZ = (Fraction(14), Fraction(400), Fraction(10), Fraction(1, 2), Fraction(60), Fraction(25))
 
 
 def _ratio_class(num, den):
@@ -76,115 +102,292 @@ def _pairs_event(cfg, api, np_, pairs, durs, ongrid):
             'durs': durs, 'ongrid': bool(ongrid)}
 
 
-def replay_config(ctx, rec, cfg, aunit, funit, fp_hz, nps, order, expected=None, mixed_units=False):
-    """One model configuration -> real DiskChopper -> events."""
+PLAIN = {'bp_unit': None, 'ph_unit': None, 'adtype': 'float64', 'sdtype': 'float64', 'fdtype': 'float64',
+         'layout': 'plain', 'pf_int': False}
+
+
+def choose_how(i, cfg, aunit, funit, f_hz, fp_hz):
+    """How configuration number i is handed over (HARDENING 1, 2, 5, 7, 8): dtypes of the operands, units that
+    differ between the operands of one call, memory layout of the slit arrays, constructor.  Every choice is
+    a different spelling of the same disk; integer / single-precision spellings only where they are exact."""
+    K = cfg['K']
+    how = dict(PLAIN)
+    other = 'rad' if aunit == 'deg' else 'deg'
+    how['layout'] = ('plain', 'strided', 'plain', 'nexus', 'nexus2')[i % 5]
+    edges = [x for s in cfg['slits'] for x in s]
+    if aunit == 'deg' and i % 7 == 3 and all(exact_in(x, K, 'int64') for x in edges):
+        how['adtype'] = 'int64'
+    elif aunit == 'deg' and i % 7 == 5 and all(exact_in(x, K, 'float32') for x in edges):
+        how['adtype'] = 'float32'
+    if aunit == 'deg' and i % 7 in (3, 4) and exact_in(cfg['bp'], K, 'int64') and exact_in(cfg['ph'], K, 'int64'):
+        how['sdtype'] = 'int64'
+    elif i % 6 == 1:
+        how['bp_unit'] = other
+    elif i % 6 == 4:
+        how['ph_unit'] = other
+    elif i % 6 == 5:
+        how['bp_unit'] = how['ph_unit'] = other
+    whole = {'Hz': f_hz.denominator == 1, '1/min': (f_hz * 60).denominator == 1, 'kHz': False}[funit]
+    if whole and i % 4 == 1:
+        how['fdtype'] = 'int64'
+    pf_whole = {'Hz': fp_hz.denominator == 1, '1/min': (fp_hz * 60).denominator == 1, 'kHz': False}[funit]
+    if pf_whole and i % 4 in (1, 2):
+        how['pf_int'] = True            # integer-typed pulse frequency IN THE UNIT OF the chopper frequency
+    return how
+
+
+def pulse_var(fp_hz, unit, as_int=False):
+    v = freq_value(fp_hz, unit)
+    if as_int:
+        if v != int(v):
+            raise AssertionError('pulse frequency is not whole in its unit')
+        return sc.scalar(int(v), unit=unit, dtype='int64')
+    return sc.scalar(v, unit=unit)
+
+
+def _is_dtype_refusal(exc, how):
+    """An implementation may refuse integer / single-precision operands with a dtype error (weakest reading:
+    the property names units, not dtypes); it must not answer wrongly."""
+    exotic = how['adtype'] != 'float64' or how['sdtype'] != 'float64' or how['fdtype'] != 'float64' or how['pf_int']
+    return exotic and isinstance(exc, (sc.DTypeError, TypeError))
+
+
+def ask_direct(ctx, rec, disk, pfv, cfg, f_ticks, label, rc, desc, how, durations=True, expected=None):
+    """time_offset_open / time_offset_close (/ open_duration) of one chopper object -> one event."""
+    K = cfg['K']
+
+    def call():
+        o, c = disk.time_offset_open(pulse_frequency=pfv), disk.time_offset_close(pulse_frequency=pfv)
+        return o, c, (disk.open_duration(pulse_frequency=pfv) if durations else None)
+
+    res, exc = _call(ctx, 'direct', None, call)
+    if exc is not None:
+        if _is_dtype_refusal(exc, how):
+            rec.count('dtype_refused')
+            return
+        ctx.violation(f'{label} raised {type(exc).__name__} for a valid in-phase configuration, {rc}',
+                      {**desc, 'exc': repr(exc)})
+        return
+    to, tc, du = res
+    o, ok1 = to_ticks(to, K, f_ticks)
+    c, ok2 = to_ticks(tc, K, f_ticks)
+    d, ok3 = to_ticks(du, K, f_ticks) if durations else ([], True)
+    if len(o) != len(c):
+        ctx.violation(f'{label}: open and close times differ in number, {rc}', desc)
+        return
+    pairs = [[o[i], c[i]] for i in range(len(o))]
+    times = {}
+    try:
+        times = {'open': to.to(unit='s').values.tolist(), 'close': tc.to(unit='s').values.tolist()}
+    except Exception:  # noqa: BLE001
+        pass
+    rec.add(_pairs_event(cfg, 'direct', 1, pairs, d, ok1 and ok2 and ok3),
+            {'api': label, 'rc': rc, 'desc': desc, 'times_s': times})
+    if expected is not None:
+        rec.count('direct')
+        rec.count('direct_equal', int(sorted(map(tuple, pairs)) == sorted(map(tuple, expected))))
+
+
+def ask_expand(ctx, rec, disk, pfv, np_, cfg, f_ticks, label, rc, desc, how, expected=None):
+    """Chopper.from_disk_chopper of one chopper object -> one event."""
     from scippneutron.tof.chopper_cascade import Chopper
 
+    K = cfg['K']
+    ch, exc = _call(ctx, 'expand', None, lambda: Chopper.from_disk_chopper(disk, pfv, np_))
+    api = label.replace('(npulses)', '(npulses=1)' if np_ == 1 else '(npulses>1)')
+    if exc is not None:
+        if _is_dtype_refusal(exc, how):
+            rec.count('dtype_refused')
+            return
+        ctx.violation(f'{api} raised {type(exc).__name__} for a valid in-phase configuration, {rc}',
+                      {**desc, 'npulses': np_, 'exc': repr(exc)})
+        return
+    o, ok1 = to_ticks(getattr(ch, 'time_open', None), K, f_ticks)
+    c, ok2 = to_ticks(getattr(ch, 'time_close', None), K, f_ticks)
+    if len(o) != len(c):
+        ctx.violation(f'{api}: open and close times differ in number, {rc}', {**desc, 'npulses': np_})
+        return
+    pairs = [[o[i], c[i]] for i in range(len(o))]
+    times = {}
+    try:
+        times = {'open': ch.time_open.to(unit='s').values.tolist(), 'close': ch.time_close.to(unit='s').values.tolist()}
+    except Exception:  # noqa: BLE001
+        pass
+    rec.add(_pairs_event(cfg, 'expand', np_, pairs, [], ok1 and ok2),
+            {'api': api, 'rc': rc, 'desc': {**desc, 'npulses': np_}, 'times_s': times})
+    if expected is not None and np_ <= len(expected):
+        rec.count('exp')
+        rec.count('exp_equal', int(sorted(map(tuple, pairs)) == sorted(map(tuple, expected[np_ - 1]))))
+
+
+INPHASE = [(1, 4), (1, 3), (1, 2), (1, 1), (2, 1), (3, 1), (4, 1), (8, 1)]
+
+
+def replay_config(ctx, rec, cfg, aunit, funit, fp_hz, nps, order, expected=None, mixed_units=False, how=None,
+                  idx=0, keep=None):
+    """One model configuration -> real DiskChopper -> events."""
+    how = how or PLAIN
     K = cfg['K']
     rho = Fraction(cfg['num'], cfg['den'])
     f_hz = rho * fp_hz
     rc = _ratio_class(cfg['num'], cfg['den'])
     desc = {'config': cfg, 'angle_unit': aunit, 'frequency_unit': funit, 'pulse_frequency_Hz': str(fp_hz),
-            'slit_order': order}
+            'slit_order': order, 'handed_over_as': {k: v for k, v in how.items() if v != PLAIN[k]}}
+    mk = {k: how[k] for k in ('bp_unit', 'ph_unit', 'adtype', 'sdtype', 'fdtype', 'layout')}
     disk, exc = _call(ctx, 'DiskChopper', None,
-                      lambda: make_disk(K, cfg['slits'], cfg['bp'], cfg['ph'], cfg['cw'], f_hz, aunit, funit, order))
+                      lambda: make_disk(K, cfg['slits'], cfg['bp'], cfg['ph'], cfg['cw'], f_hz, aunit, funit, order, **mk))
     if exc is not None:
+        if _is_dtype_refusal(exc, how):
+            rec.count('dtype_refused')
+            return
         rec.add({'ev': 'slits', 'K': K, 'slits': cfg['slits'], 'accepted': False},
                 {'api': 'DiskChopper()', 'desc': desc, 'exc': repr(exc)})
         return
-    pf = sc.scalar(freq_value(fp_hz, funit), unit=funit)
-    # ---- direct query
-    res, exc = _call(ctx, 'direct', None, lambda: (disk.time_offset_open(pulse_frequency=pf),
-                                                  disk.time_offset_close(pulse_frequency=pf),
-                                                  disk.open_duration(pulse_frequency=pf)))
-    if exc is not None:
-        ctx.violation(f'time_offset_open/close raised {type(exc).__name__} for a valid in-phase configuration, {rc}',
-                      {**desc, 'exc': repr(exc)})
-    else:
-        to, tc, du = res
-        o, ok1 = to_ticks(to, K, f_hz)
-        c, ok2 = to_ticks(tc, K, f_hz)
-        d, ok3 = to_ticks(du, K, f_hz)
-        n = min(len(o), len(c))
-        pairs = [[o[i], c[i]] for i in range(n)]
-        ongrid = ok1 and ok2 and ok3 and len(o) == len(c)
-        rec.add(_pairs_event(cfg, 'direct', 1, pairs, d, ongrid),
-                {'api': 'time_offset_open/close', 'rc': rc, 'desc': desc,
-                 'times_s': {'open': to.to(unit='s').values.tolist(), 'close': tc.to(unit='s').values.tolist()}})
-        if expected is not None:
-            rec.count('direct')
-            rec.count('direct_equal', int(sorted(map(tuple, pairs)) == sorted(map(tuple, expected['direct']))))
+    pf = pulse_var(fp_hz, funit, how['pf_int'])
+    # ---- direct query, expansion over pulses
+    ask_direct(ctx, rec, disk, pf, cfg, f_hz, 'time_offset_open/close', rc, desc, how,
+               expected=expected['direct'] if expected else None)
+    for np_ in nps:
+        ask_expand(ctx, rec, disk, pf, np_, cfg, f_hz, 'from_disk_chopper(npulses)', rc, desc, how,
+                   expected=expected['exp'] if expected else None)
+    # ---- second use (HARDENING 6): the SAME chopper object is asked with another pulse frequency - its own
+    # frequency stays, so the ratio changes - and then once more with the first one
+    if idx % 3 == 0:
+        alt = [r for r in INPHASE if r != (cfg['num'], cfg['den'])]
+        num2, den2 = alt[(idx // 3) % len(alt)]
+        cfg2 = {**cfg, 'num': num2, 'den': den2}
+        pf2 = sc.scalar(freq_value(f_hz * Fraction(den2, num2), funit), unit=funit)
+        rc2 = _ratio_class(num2, den2)
+        d2 = {**desc, 'second_pulse_frequency_ratio': f'{num2}/{den2}'}
+        ask_direct(ctx, rec, disk, pf2, cfg2, f_hz, 'time_offset_open/close, same chopper asked again with another '
+                   'pulse frequency', rc2, d2, how, durations=False)
+        if num2 * 2 <= 8 * den2:
+            ask_expand(ctx, rec, disk, pf2, 2, cfg2, f_hz, 'from_disk_chopper(npulses), same chopper asked again with '
+                       'another pulse frequency', rc2, d2, how)
+        ask_direct(ctx, rec, disk, pf, cfg, f_hz, 'time_offset_open/close, same chopper asked again with the first '
+                   'pulse frequency', rc, desc, how, durations=False)
     # ---- the same query with the pulse frequency in another unit than the chopper frequency, and with a
     # chopper frequency 1e-9 (relative) below / above the nominal one: both are inside the documented
-    # in-phase tolerance, the quotient |f| / f_pulse then lands just below / above the integer in
-    # floating point, and the result must still cover the whole pulse period (times within 1e-8).
-    variants = []
-    if mixed_units and funit != 'Hz':
-        variants.append(('pulse frequency in Hz', disk, sc.scalar(float(fp_hz), unit='Hz'), f_hz))
+    # in-phase tolerance, the quotient |f| / f_pulse (and f_pulse / |f|) then lands just below / above the
+    # integer in floating point, and the result must still cover the pulse periods (times within 1e-8).
     if mixed_units:
+        np_ = nps[-1] if nps else 1
+        if funit != 'Hz':
+            pf_hz = sc.scalar(float(fp_hz), unit='Hz')
+            ask_direct(ctx, rec, disk, pf_hz, cfg, f_hz, 'time_offset_open/close, pulse frequency in Hz', rc,
+                       {**desc, 'variant': 'pulse frequency in Hz'}, how, durations=False)
+            ask_expand(ctx, rec, disk, pf_hz, np_, cfg, f_hz, 'from_disk_chopper(npulses), mixed frequency units', rc,
+                       {**desc, 'variant': 'pulse frequency in Hz'}, how)
         for sgn in (-1, 1):
+            word = 'below' if sgn < 0 else 'above'
             d2, e2 = _call(ctx, 'DiskChopper', None,
                            lambda sgn=sgn: make_disk(K, cfg['slits'], cfg['bp'], cfg['ph'], cfg['cw'], f_hz, aunit, funit,
-                                                     order, scale=1.0 + sgn * 1e-9))
-            if e2 is None:
-                # the tick grid of *this* disk: one tick = 1 / (K |f|) of its own frequency
-                variants.append((f'frequency {"below" if sgn < 0 else "above"} nominal by 1e-9', d2, pf,
-                                 f_hz * Fraction(1.0 + sgn * 1e-9)))
-    for label, dk, pfv, f_ticks in variants:
-        res, exc = _call(ctx, 'direct', None, lambda dk=dk, pfv=pfv: (dk.time_offset_open(pulse_frequency=pfv),
-                                                                    dk.time_offset_close(pulse_frequency=pfv)))
-        if exc is not None:
-            ctx.violation(f'time_offset_open/close raised {type(exc).__name__} for a valid in-phase configuration '
-                          f'({label.split(" by")[0]}), {rc}', {**desc, 'variant': label, 'exc': repr(exc)})
-            continue
-        o, ok1 = to_ticks(res[0], K, f_ticks)
-        c, ok2 = to_ticks(res[1], K, f_ticks)
-        n = min(len(o), len(c))
-        rec.add(_pairs_event(cfg, 'direct', 1, [[o[i], c[i]] for i in range(n)], [], ok1 and ok2 and len(o) == len(c)),
-                {'api': f'time_offset_open/close, {label.split(" by")[0]}', 'rc': rc, 'desc': {**desc, 'variant': label}})
-    # ---- expansion over pulses
-    for np_ in nps:
-        ch, exc = _call(ctx, 'expand', None, lambda np_=np_: Chopper.from_disk_chopper(disk, pf, np_))
-        api = 'from_disk_chopper(npulses=1)' if np_ == 1 else 'from_disk_chopper(npulses>1)'
-        if exc is not None:
-            ctx.violation(f'{api} raised {type(exc).__name__} for a valid in-phase configuration, {rc}',
-                          {**desc, 'npulses': np_, 'exc': repr(exc)})
-            continue
-        o, ok1 = to_ticks(ch.time_open, K, f_hz)
-        c, ok2 = to_ticks(ch.time_close, K, f_hz)
-        n = min(len(o), len(c))
-        pairs = [[o[i], c[i]] for i in range(n)]
-        rec.add(_pairs_event(cfg, 'expand', np_, pairs, [], ok1 and ok2 and len(o) == len(c)),
-                {'api': api, 'rc': rc, 'desc': {**desc, 'npulses': np_},
-                 'times_s': {'open': ch.time_open.to(unit='s').values.tolist(),
-                             'close': ch.time_close.to(unit='s').values.tolist()}})
-        if expected is not None and np_ <= len(expected['exp']):
-            rec.count('exp')
-            rec.count('exp_equal', int(sorted(map(tuple, pairs)) == sorted(map(tuple, expected['exp'][np_ - 1]))))
-    # ---- chopper and pulse frequency in different units (both are documented as frequencies)
-    if mixed_units and funit != 'Hz':
-        pf_hz = sc.scalar(float(fp_hz), unit='Hz')
-        np_ = nps[-1] if nps else 1
-        ch, exc = _call(ctx, 'expand', None, lambda: Chopper.from_disk_chopper(disk, pf_hz, np_))
-        if exc is not None:
-            ctx.violation(f'from_disk_chopper raised {type(exc).__name__} when chopper and pulse frequency are '
-                          'given in different units',
-                          {**desc, 'npulses': np_, 'pulse_frequency_unit': 'Hz', 'exc': repr(exc)})
-        else:
-            o, ok1 = to_ticks(ch.time_open, K, f_hz)
-            c, ok2 = to_ticks(ch.time_close, K, f_hz)
-            n = min(len(o), len(c))
-            api = 'from_disk_chopper(npulses=1)' if np_ == 1 else 'from_disk_chopper(npulses>1)'
-            rec.add(_pairs_event(cfg, 'expand', np_, [[o[i], c[i]] for i in range(n)], [],
-                                 ok1 and ok2 and len(o) == len(c)),
-                    {'api': api + ', mixed frequency units', 'rc': rc, 'desc': {**desc, 'npulses': np_}})
+                                                     order, scale=1.0 + sgn * 1e-9,
+                                                     **{**mk, 'fdtype': 'float64'}))
+            if e2 is not None:
+                continue
+            # the tick grid of *this* disk: one tick = 1 / (K |f|) of its own frequency
+            f_own = f_hz * Fraction(1.0 + sgn * 1e-9)
+            dv = {**desc, 'variant': f'frequency {word} nominal by 1e-9'}
+            ask_direct(ctx, rec, d2, pf, cfg, f_own, f'time_offset_open/close, frequency {word} nominal', rc, dv, how,
+                       durations=False)
+            ask_expand(ctx, rec, d2, pf, np_, cfg, f_own, f'from_disk_chopper(npulses), frequency {word} nominal', rc,
+                       dv, how)
+    if keep is not None:
+        keep.append((disk, pf, cfg, f_hz, rc, desc, how, nps[-1] if nps else 1))
 
 
-def replay_slitset(ctx, rec, K, slits, aunit, order):
+def ask_kept(ctx, rec, kept):
+    """HARDENING 6: chopper objects of this process asked once more at the end, in the reverse order."""
+    for disk, pf, cfg, f_hz, rc, desc, how, np_ in reversed(kept):
+        ask_direct(ctx, rec, disk, pf, cfg, f_hz, 'time_offset_open/close, asked again at the end of the run', rc, desc,
+                   how)
+        ask_expand(ctx, rec, disk, pf, np_, cfg, f_hz, 'from_disk_chopper(npulses), asked again at the end of the run',
+                   rc, desc, how)
+
+
+# Integer-typed pulse frequency in ANOTHER unit than the chopper frequency (HARDENING 1 + 5).  The quotient
+# |f| / f_pulse needs both in one unit; converting an integer-typed Variable keeps the integer dtype, so
+# 500 Hz -> kHz and 850 / min -> Hz are rounded to whole numbers unless the code asks for a float.
+# (chopper frequency [Hz], its unit, pulse frequency as an integer, its unit, |f| / f_pulse or None = out of phase)
+INT_PULSE_PROBES = [
+    (Fraction(1000), 'kHz', 500, 'Hz', (2, 1), 3),
+    (Fraction(1500), 'kHz', 500, 'Hz', (3, 1), 3),
+    (Fraction(28), 'kHz', 14, 'Hz', (2, 1), 3),
+    (Fraction(250), 'kHz', 500, 'Hz', (1, 2), 3),       # pulses per rotation 4 instead of 2 (from_disk_chopper)
+    (Fraction(125), 'kHz', 500, 'Hz', (1, 4), 5),       # pulses per rotation 8 instead of 4 (from_disk_chopper)
+    (Fraction(2500), 'kHz', 2500, 'Hz', (1, 1), 3),
+    (Fraction(85, 3), 'Hz', 850, '1/min', (2, 1), 3),
+    (Fraction(14), 'Hz', 850, '1/min', None, 2),
+    (Fraction(7), 'Hz', 850, '1/min', None, 2),
+    (Fraction(1000), 'kHz', 1400, 'Hz', None, 2),
+]
+INT_PULSE_KEY = ('integer-typed pulse frequency in another unit than the chopper frequency is converted in integer '
+                 'arithmetic')
+
+
+class _Sub:
+    """Collects what the probes of one root cause report, so that they can be filed under one key per call site."""
+
+    def __init__(self):
+        self.events, self.info, self.viol, self.counters = [], [], [], {}
+
+    def add(self, ev, info):
+        self.events.append(ev)
+        self.info.append(info)
+
+    def violation(self, key, detail=None):
+        self.viol.append((key, detail))
+
+    def count(self, name, inc=1):
+        self.counters[name] = self.counters.get(name, 0) + inc
+
+
+def replay_int_pulse(ctx, rec, j, cw):
+    f_hz, funit, pfi, pfunit, ratio, np_ = INT_PULSE_PROBES[j]
+    K, slits = 12, [[1, 3]]        # one narrow slit: a missing rotation always shortens the covered span
+    pf = sc.scalar(pfi, unit=pfunit, dtype='int64')
+    desc = {'chopper_frequency': f'{freq_value(f_hz, funit)} {funit}', 'pulse_frequency': f'{pfi} {pfunit} (int64)',
+            'true_ratio': str(f_hz / (Fraction(pfi) * {'Hz': 1, '1/min': Fraction(1, 60)}[pfunit]))}
+    disk, exc = _call(ctx, 'DiskChopper', None, lambda: make_disk(K, slits, 0, 0, cw, f_hz, 'deg', funit))
+    if exc is not None:
+        ctx.violation('DiskChopper() raised for a single valid slit', {'exc': repr(exc)})
+        return
+    sub = _Sub()
+    if ratio is None:
+        _, exc = _call(ctx, 'direct', None, lambda: disk.time_offset_open(pulse_frequency=pf))
+        if exc is None:
+            ctx.violation(f'time_offset_open/close: {INT_PULSE_KEY}', {**desc, 'what': 'out_of_phase_frequency_accepted'})
+        _, exc = _call(ctx, 'expand', None, lambda: __import__('scippneutron.tof.chopper_cascade', fromlist=['Chopper'])
+                       .Chopper.from_disk_chopper(disk, pf, np_))
+        if exc is None:
+            ctx.violation(f'from_disk_chopper: {INT_PULSE_KEY}', {**desc, 'what': 'out_of_phase_frequency_accepted'})
+        return
+    cfg = {'K': K, 'slits': slits, 'bp': 0, 'ph': 0, 'cw': cw, 'num': ratio[0], 'den': ratio[1]}
+    rc = _ratio_class(*ratio)
+    how = dict(PLAIN)
+    ask_direct(sub, sub, disk, pf, cfg, f_hz, 'time_offset_open/close', rc, desc, how, durations=False)
+    for key, detail in sub.viol:
+        ctx.violation(f'time_offset_open/close: {INT_PULSE_KEY}', {**(detail or {}), 'what': key})
+    n1 = len(sub.events)
+    sub.viol = []
+    ask_expand(sub, sub, disk, pf, np_, cfg, f_hz, 'from_disk_chopper(npulses)', rc, desc, how)
+    for key, detail in sub.viol:
+        ctx.violation(f'from_disk_chopper: {INT_PULSE_KEY}', {**(detail or {}), 'what': key})
+    for k, (ev, inf) in enumerate(zip(sub.events, sub.info)):
+        inf['fixed_key'] = f'{"time_offset_open/close" if k < n1 else "from_disk_chopper"}: {INT_PULSE_KEY}'
+        rec.add(ev, inf)
+
+
+def replay_slitset(ctx, rec, K, slits, aunit, order, layout='plain', adtype='float64'):
     _, exc = _call(ctx, 'DiskChopper', None,
-                   lambda: make_disk(K, slits, 0, 0, False, Fraction(14), aunit, 'Hz', order))
+                   lambda: make_disk(K, slits, 0, 0, False, Fraction(14), aunit, 'Hz', order, layout=layout, adtype=adtype))
+    if exc is not None and adtype != 'float64' and isinstance(exc, (sc.DTypeError, TypeError)):
+        rec.count('dtype_refused')
+        return
     rec.add({'ev': 'slits', 'K': K, 'slits': slits, 'accepted': exc is None},
             {'api': 'DiskChopper()', 'desc': {'K': K, 'slits': slits, 'angle_unit': aunit, 'slit_order': order,
+                                             'layout': layout, 'dtype': adtype,
                                              'exc': repr(exc) if exc is not None else None}})
 
 
@@ -235,19 +438,41 @@ def _count_simulated(ctx, res):
 
 
 def worker(tasks):
-    """Replay a chunk of tasks in this (fresh) process."""
+    """Replay a chunk of tasks in this (fresh) process; at the end a sample of them once more, in the reverse
+    order, and the chopper objects that were kept are asked again (HARDENING 6)."""
     col = Collector()
-    for t in tasks:
+    kept = []
+
+    def one(t, again=False):
         if t[0] == 'slits':
-            _, K, sl, au, order, nt = t
-            replay_slitset(col, col, K, sl, au, order)
-            col.case(nt)
+            _, K, sl, au, order, nt, layout, adtype = t
+            replay_slitset(col, col, K, sl, au, order, layout, adtype)
+            col.case(nt if not again else None)
         elif t[0] == 'ratio':
             replay_ratio(col, col, *t[1:])
+        elif t[0] == 'intpulse':
+            replay_int_pulse(col, col, t[1], t[2])
+            col.case(('ip', t[1], t[2]) if not again else None)
         else:
-            _, cfg, au, fu, fp, nps, order, expected, mixed, nt = t
-            replay_config(col, col, cfg, au, fu, fp, nps, order, expected=expected, mixed_units=mixed)
-            col.case(nt)
+            _, cfg, au, fu, fp, nps, order, expected, mixed, nt, how, idx = t
+            replay_config(col, col, cfg, au, fu, fp, nps, order, expected=None if again else expected,
+                          mixed_units=mixed and not again, how=how, idx=idx,
+                          keep=kept if (not again and idx % 16 == 5) else None)
+            col.case(nt if not again else None)
+
+    if tasks:
+        # the first use of the library in this process is not one that is judged first (nothing of it is kept)
+        keep_col, keep_kept, col, kept = col, kept, Collector(), []
+        one(tasks[-1])
+        col, kept = keep_col, keep_kept
+    for t in tasks:
+        one(t)
+    n1 = len(col.events)
+    for t in reversed(tasks[3::9]):
+        one(t, again=True)
+    ask_kept(col, col, kept)
+    for inf in col.info[n1:]:
+        inf['again'] = True
     return col.export()
 
 
@@ -267,6 +492,8 @@ def run(ctx):
     ctx.assume('slit sets that are invalid only because two slits touch are replayed in degrees only, where the '
                'tick grid is exact in binary floating point (the code decides this case by float equality)')
     ctx.assume('slits of full-circle width (end - begin >= one turn) are outside the generated inputs')
+    ctx.assume('integer-typed / single-precision operands are generated only where they describe the configuration '
+               'exactly; a dtype error for them is recorded as unsupported, a result is judged like any other')
     th = ctx.thorough
     # ------------------------------------------------------------------ 1. design (runs while 2. and 3. replay)
     def design():
@@ -281,13 +508,18 @@ def run(ctx):
                           simulate='num=600', depth=12, extra=['-seed', str(ctx.seed + 10)])
             require_ok(ctx, sim, 'DiskChopper random walks (K = 360)')
             _count_simulated(ctx, sim)
-        for bug in ('nowrap', 'perpulse', 'swap', 'phasesign', 'gap', 'truncate'):
-            ctx.tlc('chopper/MC_DiskChopper.tla', f'Neg_DiskChopper_{bug}.cfg', workers=4, expect_error=True,
+
+    def controls():
+        # second use of one chopper object (asked again with another pulse frequency), small bounds
+        res = ctx.tlc('chopper/MC_DiskChopper.tla', 'MC_DiskChopper_again.cfg', workers=2, timeout=900, coverage=True)
+        require_ok(ctx, res, 'DiskChopper model (same chopper asked again)')
+        require_actions(res, ['AskAgain'])
+        for bug in ('nowrap', 'wraplisted', 'perpulse', 'swap', 'phasesign', 'gap', 'truncate', 'stalefactor'):
+            ctx.tlc('chopper/MC_DiskChopper.tla', f'Neg_DiskChopper_{bug}.cfg', workers=2, expect_error=True,
                     timeout=600)
 
-    with Background(design):
+    with Background(design), Background(controls):
         # ------------------------------------------------------------------ 2. spec -> code
-        time.sleep(0.3)   # distinct scratch directory names for the two TLC processes
         out = {k: str(ctx.tmp / f'c10-{k}.ndjson') for k in ('OUT_SLITS', 'OUT_CASES', 'OUT_RATIOS')}
         em = ctx.tlc('chopper/MC_Emit_DiskChopper.tla',
                      'MC_Emit_DiskChopper_thorough.cfg' if th else 'MC_Emit_DiskChopper.cfg',
@@ -311,7 +543,12 @@ def run(ctx):
             units = ['deg'] if touching_only(sl, K) else (['deg', 'rad'] if (i % 3 == 0 or r['wraponly']) else
                                                           [ANGLE_UNITS[i % 2]])
             for au in units:
-                tasks.append(('slits', K, sl, au, order, ('s', i, au) if (spans_tdc(sl, K) or not r['valid']) else None))
+                # HARDENING 1, 2, 8: integer / single-precision edges (exact in deg), strided arrays, from_nexus
+                adt = {3: 'int64', 5: 'float32'}.get(i % 7, 'float64') if au == 'deg' else 'float64'
+                if adt != 'float64' and not all(exact_in(x, K, adt) for s_ in sl for x in s_):
+                    adt = 'float64'
+                tasks.append(('slits', K, sl, au, order, ('s', i, au) if (spans_tdc(sl, K) or not r['valid']) else None,
+                              ('plain', 'strided', 'plain', 'nexus', 'nexus2')[i % 5], adt))
         # -- frequency ratios
         deltas_near = [Fraction(0), Fraction(1, 10**12), Fraction(-1, 10**12), Fraction(9, 10**11), Fraction(-9, 10**11)]
         deltas_far = [Fraction(1, 10**6) * 2, Fraction(-1, 10**6) * 2, Fraction(1, 10**4), Fraction(-3, 10**3),
@@ -320,18 +557,27 @@ def run(ctx):
             for j, d in enumerate(deltas_near + deltas_far):
                 if not r['inphase'] and d != 0 and j < len(deltas_near):
                     continue
-                fp = PULSE_HZ[(i + j) % (len(PULSE_HZ) if th else 2)]
+                fp = RATIO_PULSE_HZ[(i + j) % (len(RATIO_PULSE_HZ) if th else 4)]
                 tasks.append(('ratio', r['num'], r['den'], d, FREQ_UNITS[(i + j) % 3], bool((i + j) % 2), fp))
         # -- configurations of the exhaustive model
         nmax = 4 if th else 3
         for i, c in enumerate(case_recs):
             cfg = {k: c[k] for k in ('K', 'slits', 'bp', 'ph', 'cw', 'num', 'den')}
+            expected = {'direct': c['direct'], 'exp': c['exp']}
+            if i % 5 == 3:
+                # the same beam position written one turn lower / higher ("any beam position"): another input,
+                # judged by the simulated disk like every other; the emitted answer belongs to the unshifted one
+                cfg['bp'] += cfg['K'] * (-1 if i % 2 else 1)
+                expected = None
             order = list(range(len(cfg['slits'])))
             rng.shuffle(order)
             nps = list(range(1, nmax + 1)) if th or i % 4 == 0 else [1 + i % nmax]
-            tasks.append(('config', cfg, ANGLE_UNITS[i % 2], FREQ_UNITS[(i // 2) % 3], PULSE_HZ[(i // 6) % 2], nps,
-                          order, {'direct': c['direct'], 'exp': c['exp']}, i % 24 == 2,
-                          ('c', i) if _nontrivial(cfg, nps) else None))
+            au, fu, fp = ANGLE_UNITS[i % 2], FREQ_UNITS[(i // 2) % 3], PULSE_HZ[(i // 6) % 2]
+            how = choose_how(i, cfg, au, fu, Fraction(cfg['num'], cfg['den']) * fp, fp)
+            tasks.append(('config', cfg, au, fu, fp, nps, order, expected, i % 24 == 2,
+                          ('c', i) if _nontrivial(cfg, nps) else None, how, i))
+        for j in range(len(INT_PULSE_PROBES)):
+            tasks.append(('intpulse', j, bool(j % 2)))
         n_enumerated = len(tasks)
         # -------------------------------------------------------------- 3. code -> spec, random, large
         nrand = 1200 if th else 250
@@ -339,13 +585,15 @@ def run(ctx):
             K = rng.choice([24, 48, 72, 120, 360] if th else [24, 48, 72, 120])
             n = rng.randrange(1, 7)
             num, den = rng.choice([(1, 4), (1, 3), (1, 2), (1, 1), (2, 1), (3, 1), (4, 1), (8, 1)])
-            cfg = {'K': K, 'slits': random_valid_slits(rng, K, n), 'bp': rng.randrange(K),
+            cfg = {'K': K, 'slits': random_valid_slits(rng, K, n), 'bp': rng.randrange(-K, 2 * K),
                    'ph': rng.randrange(-3 * K, 3 * K + 1), 'cw': rng.random() < 0.5, 'num': num, 'den': den}
             order = list(range(n))
             rng.shuffle(order)
             nps = [rng.randrange(1, 5)]
-            tasks.append(('config', cfg, rng.choice(ANGLE_UNITS), rng.choice(FREQ_UNITS), rng.choice(PULSE_HZ), nps,
-                          order, None, t % 10 == 0, ('r', t) if _nontrivial(cfg, nps) else None))
+            au, fu, fp = rng.choice(ANGLE_UNITS), rng.choice(FREQ_UNITS), rng.choice(PULSE_HZ)
+            how = choose_how(rng.randrange(420), cfg, au, fu, Fraction(num, den) * fp, fp)
+            tasks.append(('config', cfg, au, fu, fp, nps, order, None, t % 5 == 0,
+                          ('r', t) if _nontrivial(cfg, nps) else None, how, n_enumerated + t))
             # a random slit set of the same size (mostly overlapping somewhere; also perturbed valid sets)
             if t % 2 == 0:
                 sl = [list(x) for x in cfg['slits']]
@@ -355,10 +603,16 @@ def run(ctx):
                 else:
                     b = rng.randrange(K)
                     sl[k] = [b, b + rng.randrange(1, K)]
-                tasks.append(('slits', K, sl, 'deg', order, ('rs', t)))
-        # every chunk runs in a fresh process: at most 1500 x 14 new scipp dimension labels per process
-        results = run_chunks(worker, chunked(tasks, 1500), PROCS)
+                adt = rng.choice(['float64', 'float64', 'int64', 'float32'])
+                if not all(exact_in(x, K, adt) for s_ in sl for x in s_):
+                    adt = 'float64'
+                tasks.append(('slits', K, sl, 'deg', order, ('rs', t), rng.choice(['plain', 'strided', 'nexus', 'nexus2']), adt))
+        # every chunk runs in a fresh process: at most 1000 x 30 new scipp dimension labels per process
+        t_rep = time.time()
+        results = run_chunks(worker, chunked(tasks, 1000), PROCS)
         events, info, counters = merge_results(ctx, results)
+        ctx.extra['replay_wall_s'] = round(time.time() - t_rep, 1)
+        ctx.extra['refused_for_dtype_only'] = counters.get('dtype_refused', 0)
         ctx.extra['tasks'] = {'enumerated': n_enumerated, 'random': len(tasks) - n_enumerated}
     # ------------------------------------------------------------------ 4. TLC judges every event
     pe = [e for e in events if e['ev'] == 'pairs']
@@ -378,12 +632,17 @@ def run(ctx):
         ev, inf = events[line - 1], info[line - 1]
         if clause.startswith('driver_error') or clause == 'unknown_event':
             raise MachineryError(f'bad event {ev}: {clause}')
-        if ev['ev'] == 'pairs':
+        if inf.get('fixed_key'):
+            key = inf['fixed_key']                   # probes of one root cause: one key per call site
+        elif ev['ev'] == 'pairs':
             key = f'{inf["api"]}: {clause}, {inf["rc"]}'
         elif ev['ev'] == 'slits':
             key = f'DiskChopper(): {clause}'
         else:
             key = f'time_offset_open: {clause}'
+        if inf.get('again') and not inf.get('fixed_key'):
+            key += ' [replayed later in the same process, in another order]'
+        inf = {**inf, 'clause': clause}
         ctx.violation(key, {'event': ev, **{k: v for k, v in inf.items() if k not in ('api', 'rc')}})
     # ------------------------------------------------------------------ 5. the judge is sensitive
     rejected = {line for _, line, _t, _c in tr.tagged('REJECT')}
@@ -414,9 +673,11 @@ META = {
     'text': 'TLC proves on a 12-tick disk, for every slit set of up to 3 slits (also across top-dead-centre), '
             'multi-turn phases, both senses, ratios 1/4..8 and 1..4 pulses, that the documented formulas report '
             'exactly the maximal open intervals of the simulated disk (nothing twice, nothing missing), that '
-            'sort-and-compare validation with wrap-around equals disjointness on the circle, and rejects five wrong '
+            'sort-and-compare validation with wrap-around equals disjointness on the circle in every listing order, '
+            'that a chopper asked again with another pulse frequency answers like a fresh one, and rejects eight wrong '
             'variants.  The real API is then driven with the enumerated configurations (deg/rad, Hz/kHz/1/min, '
-            'permuted slits) and with seeded random ones up to 360 ticks and 6 slits; each call is recorded in '
+            'permuted slits; integer / float32 operands, mixed units between operands, strided arrays, from_nexus, '
+            'second use of the same object) and with seeded random ones up to 360 ticks and 6 slits; each call is recorded in '
             'integer ticks and TLC decides it against the simulated disk; slit-set and frequency-ratio rejection '
             'are decided the same way.',
     'note': 'Trusted: TLC, scipp unit conversion, the mapping time -> tick within 1e-9 periods (float comparison '
